@@ -901,7 +901,55 @@ def rule_show_uses_current_context(ctx):
     rule_context_read_at_statement_time(ctx)
 
 
+def rule_tables_view_extended_wherever_it_is_read(ctx):
+    """C09.p: a SELECT on information_schema.tables gets the join that supplies the `comment` column wherever it stands — as the
+    statement itself, as a CTE body, a subquery, the query of INSERT … SELECT / CREATE TABLE AS / a view (the stage is applied to
+    every node; deciding by position in the tree makes the column unreadable in all nested uses)."""
+    prog = ctx.prog
+    tm = prog.mod("transforms")
+    # the stage by role: the rewrite that mentions the tables side table
+    cands = [q for q, f in tm.functions.items() if "." not in q and any(
+        isinstance(c, ast.Constant) and isinstance(c.value, str) and "_fs_tables_ext" in c.value for c in ast.walk(f))
+        and any(isinstance(c, ast.Attribute) and c.attr == "Select" for c in ast.walk(f))]
+    ctx.floor("C09.p stages extending information_schema.tables", len(cands), 1)
+
+    def idn(n_):
+        return NodeV("Identifier", {"this": Const(n_), "quoted": Const(False)}, name=f"id:{n_}", open=False)
+
+    def mk(parent_cls):
+        t = NodeV("Table", {"this": idn("TABLES"), "db": idn("INFORMATION_SCHEMA")}, name="tbl:INFORMATION_SCHEMA.TABLES", open=False)
+        fr = NodeV("From", {"this": t}, name="from", open=False)
+        t.parent = fr
+        sel = NodeV("Select", {"expressions": Lst([NodeV("Star", {}, name="star", open=False)]), "from": fr}, name="sel", open=False)
+        fr.parent = sel
+        if parent_cls:
+            par = NodeV(parent_cls, {"this": sel} if parent_cls != "Insert" else {"this": NodeV("Table", {"this": idn("SNAP")}, name="tbl:SNAP", open=False),
+                                                                              "expression": sel}, name="parent", open=False)
+            sel.parent = par
+        return sel
+
+    n = 0
+    for q in cands:
+        fn = tm.functions[q]
+        for parent_cls, label in ((None, "the statement itself"), ("Subquery", "a subquery"), ("CTE", "a CTE body"), ("Insert", "the query of INSERT … SELECT")):
+            for p in explore(prog, lambda: ExecHooks(None), lambda I, q=q, parent_cls=parent_cls: I.call(I.global_lookup("transforms", q), [mk(parent_cls)], {}, None),
+                             max_paths=16):
+                if p.outcome != "return":
+                    continue
+                n += 1
+                joined = any(e[0] == "nodejoin" and "_fs_tables_ext" in "".join(tagof(a) for a in e[2]) + str({k: tagof(v) for k, v in e[3].items()}) for e in p.effects) \
+                    or any(e[0] == "nodejoin" for e in p.effects)
+                ctx.ob("C09.p", f"{q}: SELECT on information_schema.tables as {label} is joined to the side table", joined, tm.loc(fn))
+                if not joined:
+                    ctx.violation("C09.p", "transforms", q, f"information_schema.tables not extended as {label}", tm.loc(fn),
+                                  f"`{q}` leaves a SELECT on information_schema.tables untouched when it is {label}: the `comment` column Snowflake's "
+                                  f"view has is missing there (binder error), although the same SELECT works as a statement of its own")
+                break
+    ctx.floor("C09.p positions evaluated", n, 4)
+
+
 RULES = [
+    ("C09.p", rule_tables_view_extended_wherever_it_is_read, ("quick", "thorough")),
     ("C09.o", rule_show_uses_current_context, ("quick", "thorough")),
     ("C09.l", rule_columns_redirect_keeps_scope, ("quick", "thorough")),
     ("C09.g", rule_precision_pattern, ("quick", "thorough")),
